@@ -275,8 +275,8 @@ func c11(o Opts) error {
 	rng := NewRng(o.Seed)
 	thorough := o.Tier == "thorough"
 
-	nGen, nRandom, truncEvery, nQRandom := 6, 24, 200, 5
-	thrEvery, autoEvery, vngEvery := 8, 6, 4
+	nGen, nRandom, truncEvery, nQRandom := 7, 24, 200, 5
+	thrEvery, autoEvery, vngEvery := 5, 7, 5
 	if thorough {
 		nGen, nRandom, truncEvery, nQRandom = 36, 120, 2000, 40
 		thrEvery, autoEvery, vngEvery = 6, 3, 1
@@ -284,7 +284,7 @@ func c11(o Opts) error {
 
 	// ---- corpus
 	seeds := genSeeds(rng, nGen)
-	rs, ztestQueries := repoSeeds(1500, map[bool]int{false: 60, true: 400}[thorough])
+	rs, ztestQueries := repoSeeds(1500, map[bool]int{false: 40, true: 400}[thorough])
 	seeds = append(seeds, rs...)
 	seeds = append(seeds, stressText()...)
 
@@ -482,30 +482,38 @@ func c11(o Opts) error {
 		return err
 	}
 
-	// A HANG verdict is confirmed by running the case alone with a long
-	// watchdog (the machine may just have been busy).
-	var hung []*Case
+	// A HANG or LEAK verdict depends on timing, so it only counts when it
+	// reproduces with the case run alone, in a fresh child, with a 60 s
+	// watchdog and a 12 s grace period for goroutines (a busy machine must
+	// not turn into a violation).  OOM by the allocation counter and
+	// PANIC/CRASH/INVALID are deterministic and are not re-run.
+	var timing []*Case
 	for _, c := range cases {
-		if rn.results[c.ID].Class == "HANG" {
+		if cl := rn.results[c.ID].Class; cl == "HANG" || cl == "LEAK" {
 			cc := *c
-			cc.Timeout = 45
-			hung = append(hung, &cc)
+			cc.Timeout = 60
+			timing = append(timing, &cc)
 		}
 	}
-	if len(hung) > 24 {
-		hung = hung[:24]
+	if len(timing) > 32 {
+		timing = timing[:32]
 	}
-	if len(hung) > 0 {
+	if len(timing) > 0 {
 		first := map[int]CaseResult{}
-		for _, c := range hung {
+		for _, c := range timing {
 			first[c.ID] = rn.results[c.ID]
 		}
-		if err := rn.runAll(hung, 1); err != nil {
+		saved := rn.par
+		rn.par = 2
+		err := rn.runAll(timing, 1)
+		rn.par = saved
+		if err != nil {
 			return err
 		}
-		for _, c := range hung {
+		for _, c := range timing {
 			if r := rn.results[c.ID]; r.Class == "ok" || r.Class == "error" {
-				res.Count("slow-but-terminating(>10s under load)")
+				res.Count("timing-verdict-not-reproduced:" + first[c.ID].Class)
+				res.Notes = append(res.Notes, fmt.Sprintf("%s on %s (%s) did not reproduce in isolation (%d us): not reported", first[c.ID].Class, c.Origin, c.Mode, r.Us))
 			}
 		}
 	}
